@@ -158,7 +158,11 @@ class C12(Check):
                   "port_mod_spec. Each run re-checks the hand-written model against the real switch.")
     level_note = ("Trusted: Lean kernel, standard axioms, hand-written Model/Actions.lean + the C14 packet models, harness/c12.py + swnet.py. "
                   "Flow matching is reduced to in_port/wildcard rules (C03), the buffer pool is assumed not to fill (C18). "
-                  "The model follows the repaired code (fixes D7, D8, C12-1).")
+                  "The model follows the code variant detected in the tree (repairs D7, D8, C12-1, C12-2, C12-6). The Lean specification's header rewrites "
+                  "(Spec.rewrite1: atL3/ifIpv4/ifL4, 6-bit DSCP for set_nw_tos) are transcribed from OpenFlow 1.0 §3.3 with their own traversal and share no "
+                  "helper with the model; they do share the C14 packet chain type and, for the set-VLAN actions, the reading 'an untagged frame gets a zero tag first'. "
+                  "Frames that are not well-formed are covered by actions_total / outputs_only (no exception but pack(), emitted bytes = pack() of the handler-rewritten "
+                  "tree), not by actions_spec; that pack() cannot fail on a parsed tree is C15's subject and here only tested.")
     trusted_base = ["model Model/Actions.lean hand-written from switch.py (rx_packet, _lookup_packet, _output_packet, _process_actions_for_packet, _action_*, "
                     "_rx_port_mod, _set_port_config_bit); tied by this correspondence run",
                     "packet models of C14 (Model/PacketHdr.lean, Checksum.lean)", "harness/swnet.py byte-level switch node"]
